@@ -1,6 +1,6 @@
 """pyvc core: AST -> VC symbolic executor over the REAL /repo source with a typed heap, sidecar contracts,
 loops cut by invariants, numpy models as index->term closures. See DESIGN.md section 2."""
-import ast, itertools, hashlib, time, textwrap, os
+import ast, os, itertools, hashlib, time, textwrap
 import z3
 
 I, R, B = z3.IntSort(), z3.RealSort(), z3.BoolSort()
@@ -2188,12 +2188,16 @@ class Engine:
             r_.pylist = v.pylist
             return r_
         if isinstance(v, VMat):
-            return VMat(fresh(name, arr(I, I, R)), v.rows, v.cols)
+            return VMat(fresh(name, arr(I, I, R)), fresh(name + "_rows", I), fresh(name + "_cols", I))      # the shape may change in the loop too (np.insert, np.delete, ...): the invariant has to say what it is
         if isinstance(v, VBool):
             return VBool(fresh(name, B))
         if isinstance(v, VIntMap):
             return VIntMap(fresh(name, arr(I, I)), fresh(name + "_dom", arr(I, B)))
-        return v
+        if type(v).__name__ == "VName":
+            return type(v)(fresh(name, v.e.sort()))
+        if type(v).__name__ in ("VOpaque", "VNone", "VLib", "VNode", "VExternal", "VLambda", "VBound"):
+            return v          # values without content the encoding could constrain (a loop that re-assigns them to something else is outside the subset: the body then fails to type)
+        raise Unsupported(f"local '{name}' ({type(v).__name__}) is assigned inside a loop and cannot be havocked: give it a symbolic model (local_models) or restructure the contract")
 
     def callee_effects(self, body, depth=0, seen=None, self_cls=None):
         """heap fields a loop body may modify through calls: the `modifies` of every registered contract whose method/setter name is
